@@ -218,29 +218,73 @@ def apis(rules_some):
     """name -> (discipline key, other?, proto call, ir call, ir ret kind expected, kinds of model it is run on)."""
     from onnxscript import optimizer, rewriter, version_converter
     return [
-        ("optimize", "optimize", False, lambda p: optimizer.optimize(p), lambda m: optimizer.optimize(m), "arg", {"inert", "active", "functions"}),
+        ("optimize", "optimize", False, lambda p: optimizer.optimize(p), lambda m: optimizer.optimize(m), "arg", {"inert", "active", "functions", "plain"}),
         ("optimize_noinline", "optimize", False, lambda p: optimizer.optimize(p, inline=False, num_iterations=1),
          lambda m: optimizer.optimize(m, inline=False, num_iterations=1), "arg", {"inert", "functions"}),
         ("fold_constants", "fold_constants", True, lambda p: optimizer.fold_constants(p), lambda m: optimizer.fold_constants(m), "other",
-         {"inert", "active", "functions"}),
+         {"inert", "active", "functions", "plain"}),
         ("remove_unused_nodes", "remove_unused_nodes", False, lambda p: optimizer.remove_unused_nodes(p),
-         lambda m: optimizer.remove_unused_nodes(m), "none", {"inert", "active", "functions"}),
+         lambda m: optimizer.remove_unused_nodes(m), "none", {"inert", "active", "functions", "plain"}),
         ("remove_unused_functions", "remove_unused_functions", False, lambda p: optimizer.remove_unused_functions(p),
-         lambda m: optimizer.remove_unused_functions(m), "none", {"inert", "active", "functions"}),
-        ("rewrite_default", "rewrite", False, lambda p: rewriter.rewrite(p), lambda m: rewriter.rewrite(m), "arg", {"inert", "active", "functions"}),
+         lambda m: optimizer.remove_unused_functions(m), "none", {"inert", "active", "functions", "plain"}),
+        ("rewrite_default", "rewrite", False, lambda p: rewriter.rewrite(p), lambda m: rewriter.rewrite(m), "arg", {"inert", "active", "functions", "plain"}),
         ("rewrite_rules", "rewrite", False, lambda p: rewriter.rewrite(p, rules_some), lambda m: rewriter.rewrite(m, rules_some), "arg",
-         {"inert", "active"}),
+         {"inert", "active", "plain"}),
         ("rewrite_empty", "rewrite_empty", False, lambda p: rewriter.rewrite(p, []), lambda m: rewriter.rewrite(m, []), "arg", {"inert", "active"}),
         ("convert_version_same", "convert_version", False, lambda p: version_converter.convert_version(p, 18),
          lambda m: version_converter.convert_version(m, 18), "none", {"inert", "active"}),
         ("convert_version_up", "convert_version", False, lambda p: version_converter.convert_version(p, 20),
-         lambda m: version_converter.convert_version(m, 20), "none", {"inert", "active", "functions"}),
+         lambda m: version_converter.convert_version(m, 20), "none", {"inert", "active", "functions", "plain"}),
+    ] + [
+        # fallback in {True, False}, targets below and above the source; below the native range only the ONNX C-API path can run
+        (f"convert_version_{t}_fallback_{fb}", "convert_version", False,
+         (lambda p, t=t, fb=fb: version_converter.convert_version(p, t, fallback=fb)),
+         (lambda m, t=t, fb=fb: version_converter.convert_version(m, t, fallback=fb)), "none", {"plain"})
+        for t, fb in ((17, True), (16, True), (13, True), (17, False), (21, True), (21, False), (18, True))
     ]
 
 
 INERT_INCLUDE = {"optimize_noinline", "fold_constants"}
 INERT_EQUAL = {"optimize_noinline", "fold_constants", "remove_unused_nodes", "remove_unused_functions", "rewrite_default", "rewrite_rules",
                "convert_version_same"}
+
+
+def _api_family(name):
+    return "convert_version" if name.startswith("convert_version") else name
+
+
+def initializers_survive(onnx, before, after):
+    """(lost, changed): initializers of `before` that `after` still refers to (node input in any graph, graph input/output)
+    but that are no longer initializers there / whose dtype, dims or payload differ."""
+    used = set()
+
+    def walk(g):
+        for n in g.node:
+            used.update(n.input)
+            for a in n.attribute:
+                if a.type == onnx.AttributeProto.GRAPH:
+                    walk(a.g)
+                for sg in a.graphs:
+                    walk(sg)
+    walk(after.graph)
+    used.update(v.name for v in after.graph.input)
+    used.update(v.name for v in after.graph.output)
+    have = {t.name: t for t in after.graph.initializer}
+    lost, changed = [], []
+    for t in before.graph.initializer:
+        if t.name not in used:
+            continue
+        if t.name not in have:
+            lost.append(t.name)
+            continue
+        u = have[t.name]
+        same = (t.data_type == u.data_type and list(t.dims) == list(u.dims) and t.data_location == u.data_location
+                and list(t.string_data) == list(u.string_data)
+                and sorted((e.key, e.value) for e in t.external_data) == sorted((e.key, e.value) for e in u.external_data)
+                and (gm.tensor_payload(onnx, t) or b"") == (gm.tensor_payload(onnx, u) or b""))
+        if not same:
+            changed.append(t.name)
+    return sorted(lost), sorted(changed)
 
 
 def carriers(tree_n, tree_f):
@@ -357,6 +401,8 @@ def run(ctx):
     ctx.check_props()
     ctx.build(["Serde/Wrappers.vo", "Serde/Tree.vo", "Serde/Packing.vo", "Gen/C15Wrappers.vo"])
 
+    import logging
+    logging.getLogger("onnxscript.version_converter").setLevel(logging.ERROR)   # the C-API fallback logs a traceback per refusal
     rng = ctx.rng
     N = lambda p: ir.serde.serialize_model(ir.serde.deserialize_model(p))  # noqa: E731
     rules_some = list(_no_op.rules) + list(_fuse_relus_clips.rules)
@@ -367,6 +413,9 @@ def run(ctx):
         kind = kinds[i % len(kinds)]
         m, info = gm.gen_model(rng, onnx, kind, i)
         models.append((m, info))
+    # plain standard-domain models with initializers around the 1000-element limit of the C-API helper, some of them graph inputs
+    for i in range(6 if ctx.tier == "quick" else 40):
+        models.append(gm.gen_plain(rng, onnx, n_models + i))
     # validity of what we generate (the property quantifies over valid models)
     invalid = 0
     import tempfile
@@ -404,9 +453,7 @@ def run(ctx):
 
         def report_lost(what, d, rep):
             path = "/".join(str(x) for x in (d[0][:-2] if d and d[0][-1] != "missing" else d[0][:-1])) if d else "?"
-            cls = _diff_class(d)
-            who = what.split(":")[-1] if ":" in what else "serde"
-            key = "C15:serde:tensor-metadata_props-duplicated" if (cls == "tensor-metadata_props" and who == "serde") else f"C15:{who}:field-lost:{cls}"
+            key = lost_key(what, d)
             ctx.violation(key, f"{what}: a populated field does not reappear with the same value at {path}",
                           dict(rep, relation=what, differences=[list(map(str, x)) for x in d[:8]]))
 
@@ -524,6 +571,24 @@ def run(ctx):
                             what = ("convert_version(ModelProto, v) rewrites the graph for opset v but leaves opset_import at the old version; "
                                     "the IR form updates it")
                         ctx.violation(key, what, dict(rep, differing_parts=diff_parts, model=m_bytes.hex() if len(m_bytes) < 20000 else None))
+                # direct oracle: every initializer that is still referenced survives with identical dtype, dims and bytes,
+                # in both entry forms; the graph signature is what it was
+                for form, fres in (("proto", result_p), ("ir", S)):
+                    lost, changed = initializers_survive(onnx, n1, fres)
+                    if lost:
+                        ctx.violation(f"C15:{_api_family(name)}:initializer-lost",
+                                      f"{name} ({form} form): initializers {lost} are still referenced but no longer carry a value",
+                                      dict(rep, form=form, lost=lost, model_info=info, model=m_bytes.hex() if len(m_bytes) < 40000 else None))
+                    if changed:
+                        ctx.violation(f"C15:{_api_family(name)}:initializer-payload-changed",
+                                      f"{name} ({form} form): initializers {changed} changed dtype, dims or bytes",
+                                      dict(rep, form=form, changed=changed, model_info=info, model=m_bytes.hex() if len(m_bytes) < 40000 else None))
+                    sig = lambda p: ([det(v) for v in p.graph.input], [det(v) for v in p.graph.output])  # noqa: E731
+                    if sig(fres) != sig(n1):
+                        ctx.violation(f"C15:{_api_family(name)}:graph-signature-changed",
+                                      f"{name} ({form} form): graph inputs/outputs differ from those of the model it was given",
+                                      dict(rep, form=form, inputs_before=[v.name for v in n1.graph.input], inputs_after=[v.name for v in fres.graph.input],
+                                           outputs_after=[v.name for v in fres.graph.output], model_info=info))
                 # direct oracle: nothing to do => nothing lost, bit for bit
                 if info["kind"] == "inert" and name in INERT_INCLUDE and not info["vi_complete"]:
                     # shape inference may add value_info for the intermediates: nothing may be lost, additions are fine
@@ -558,8 +623,8 @@ def run(ctx):
     if bad is not None:
         for i in sorted(bad)[:8]:
             name, info, rep, kind_p, mutated = eff_meta[i]
-            exp = disc.get(name.split("_noinline")[0].replace("rewrite_default", "rewrite").replace("rewrite_rules", "rewrite")
-                           .replace("convert_version_same", "convert_version").replace("convert_version_up", "convert_version"), "?")
+            exp = disc.get("convert_version" if name.startswith("convert_version") else
+                           name.split("_noinline")[0].replace("rewrite_default", "rewrite").replace("rewrite_rules", "rewrite"), "?")
             # the property itself: in-place variants mutate, the others leave the argument unchanged
             pure_expected = name.startswith(("optimize", "rewrite", "replace_functions"))
             if pure_expected and mutated:
@@ -599,12 +664,20 @@ def run(ctx):
         ctx.coqchk(["Props.C15"])
 
 
-def _is_known(ctx, meta):
-    what, info, ta, tb, rep, _ = meta
-    d = gm.py_includes(ta, tb)
+def lost_key(what, d):
     cls = _diff_class(d)
     who = what.split(":")[-1] if ":" in what else "serde"
-    key = "C15:serde:tensor-metadata_props-duplicated" if (cls == "tensor-metadata_props" and who == "serde") else f"C15:{who}:field-lost:{cls}"
+    if cls == "tensor-metadata_props" and who == "serde":
+        return "C15:serde:tensor-metadata_props-duplicated"
+    if who.startswith("convert_version") and who.endswith("fallback_True") and cls in ("graph/metadata_props", "node/metadata_props",
+                                                                                         "node_by_name/metadata_props"):
+        return "C15:convert_version:c-api-fallback-drops-metadata_props"
+    return f"C15:{_api_family(who)}:field-lost:{cls}"
+
+
+def _is_known(ctx, meta):
+    what, info, ta, tb, rep, _ = meta
+    key = lost_key(what, gm.py_includes(ta, tb))
     return any(f["key"] == key and f.get("status") == "known" for f in ctx.findings)
 
 
